@@ -537,6 +537,83 @@ def symcache_facts(tree):
             "symCacheInitCap": sc["symCacheInitCap"], "sweepDeinitsFreedSymbols": True}
 
 
+# ---------------------------------------------------------------------------------------------------------------------
+# the one gcmark callback whose mark is conditional on STATE: parsermark marks parser->error only when the flag bit
+# JANET_PARSER_GENERATED_ERROR is set.  Every write of `->error` / `->flag` in parse.c is regenerated, per function.
+def parser_error_sites(tree):
+    src = csrc.strip_comments(csrc.read(tree, "src/core/parse.c"))
+    for rel in ("src/core/run.c",):
+        other = csrc.strip_comments(csrc.read(tree, rel))
+        if re.search(r"(?:->|\.)\s*(?:error|flag)\s*(?:\|=|&=|=)(?!=)", other):
+            raise ExtractError("%s writes the parser's error / flag fields" % rel)
+    sites = []
+    for m in re.finditer(r"^((?:static\s+)?[A-Za-z_][\w \t\*]*?)\b(\w+)\s*\(([^;{}()]*)\)\s*\{", src, re.M):
+        quals, name = m.group(1), m.group(2)
+        if name in ("if", "while", "for", "switch"):
+            continue
+        body = src[m.end() - 1:csrc.match_brace(src, m.end() - 1)]
+        acts = []
+        for a in re.finditer(r"(\w+)\s*->\s*(error|flag)\s*(\|=|&=|=)(?!=)\s*([^;]+);", body):
+            field, op, rhs = a.group(2), a.group(3), norm(a.group(4))
+            if field == "error":
+                if op != "=":
+                    raise ExtractError("parse.c %s: `->error %s` not recognised" % (name, op))
+                if rhs.startswith('"'):
+                    acts.append("errStatic")
+                elif rhs == "NULL":
+                    acts.append("errNull")
+                elif re.fullmatch(r"\(constchar\*\)janet_(?:string|cstring|formatc)\(.*\)", rhs):
+                    acts.append("errHeap")
+                elif re.fullmatch(r"\w+->error", rhs):
+                    acts.append("errCopy")
+                else:
+                    raise ExtractError("parse.c %s: value stored into ->error not recognised: `%s`" % (name, rhs))
+            else:
+                key = (op, rhs)
+                table = {("|=", "JANET_PARSER_GENERATED_ERROR"): "setGen", ("&=", "~JANET_PARSER_GENERATED_ERROR"): "clearGen",
+                         ("|=", "JANET_PARSER_DEAD"): "setDead", ("=", "0"): "flagZero", ("=", "JANET_PARSER_DEAD"): "flagOnlyDead",
+                         ("=", "JANET_PARSER_GENERATED_ERROR"): "flagOnlyGen"}
+                if key in table:
+                    acts.append(table[key])
+                elif op == "=" and re.fullmatch(r"\w+->flag", rhs):
+                    acts.append("flagCopy")
+                else:
+                    raise ExtractError("parse.c %s: write of ->flag not recognised: `%s %s`" % (name, op, rhs))
+        if acts:
+            sites.append((name, "static" in quals.split(), acts))
+    if not sites:
+        raise ExtractError("parse.c: no write of ->error / ->flag found")
+    pm = norm(csrc.func_body(src, "parsermark"))
+    if pm.count("parser->error") != 1 or "if(parser->flag&JANET_PARSER_GENERATED_ERROR){janet_mark(janet_wrap_string((constuint8_t*)parser->error));}" not in pm:
+        raise ExtractError("parsermark: `if (parser->flag & JANET_PARSER_GENERATED_ERROR) janet_mark(<error as string>)` not recognised")
+    pc = norm(csrc.func_body(src, "janet_parser_consume"))
+    mloop = re.search(r"while\(([^{]*)\)\{JanetParseState\*state=parser->states\+parser->statecount-1;consumed=state->consumer\(parser,state,c\);\}", pc)
+    if not mloop or "!parser->error" not in mloop.group(1).split("&&") or pc.count("->consumer(") != 1:
+        raise ExtractError("janet_parser_consume: the consumer loop `while (… && !parser->error)` not recognised")
+    if src.count("->consumer(") != 1:
+        raise ExtractError("parse.c: a consumer callback is invoked outside the loop of janet_parser_consume")
+    pe = norm(csrc.func_body(src, "janet_parser_error"))
+    if not re.search(r"if\(status==JANET_PARSE_ERROR\)\{.*parser->error=NULL;.*\}returnNULL;", pe):
+        raise ExtractError("janet_parser_error: guard `status == JANET_PARSE_ERROR` not recognised")
+    ps = norm(csrc.func_body(src, "janet_parser_status"))
+    if not ps.startswith("{if(parser->error)returnJANET_PARSE_ERROR;"):
+        raise ExtractError("janet_parser_status: `if (parser->error) return JANET_PARSE_ERROR;` first not recognised")
+    return sites
+
+
+def render_parser_sites(sites):
+    L = ["/-- every write of `->error` / `->flag` in parse.c, per function, in source order (parsermark marks `error` as a heap",
+         "string iff the flag bit JANET_PARSER_GENERATED_ERROR is set - asserted by the translator, as are: consumer callbacks are",
+         "invoked only by the loop of janet_parser_consume, which stops at the first error; janet_parser_error acts only when",
+         "`error != NULL`).  (function, is `static`, writes) -/",
+         "inductive PAct where | errStatic | errNull | errHeap | errCopy | setGen | clearGen | setDead | flagZero | flagOnlyDead | flagOnlyGen | flagCopy",
+         "  deriving DecidableEq, Repr",
+         "def parserSites : List (String × Bool × List PAct) := ["]
+    L.append(",\n".join('  ("%s", %s, [%s])' % (n, "true" if st else "false", ", ".join("." + a for a in acts)) for n, st, acts in sites))
+    L.append("]\n")
+    return "\n".join(L)
+
+
 def render(tree):
     info = extract(tree)
     mem = info["mem"]
@@ -600,6 +677,8 @@ def render(tree):
     out.append("abbrev initialGcInterval : Nat := %d\n" % info["initialGcInterval"])
     walks = ring_walks(tree)
     out.append(render_ring_walks(walks))
+    psites = parser_error_sites(tree)
+    out.append(render_parser_sites(psites))
     sf = symcache_facts(tree)
     out.append("/-- symcache.c as the sweep uses it: what janet_symcache_findmem / janet_symbol_deinit store into a vacated bucket")
     out.append("(true = the tombstone JANET_SYMCACHE_DELETED, false = NULL), initial capacity, and: every block freed by either pass")
@@ -609,7 +688,7 @@ def render(tree):
     out.append("abbrev symCacheInitCap : Nat := %d" % sf["symCacheInitCap"])
     out.append("abbrev sweepDeinitsFreedSymbols : Bool := %s\n" % ("true" if sf["sweepDeinitsFreedSymbols"] else "false"))
     out.append("end JanetModel.Gen.GC\n")
-    return "\n".join(out), {"symcache": sf, "ringWalks": {f: [kind, list(cond) if cond else None, [list(x) for x in a], [list(x) for x in b]] for f, _, (kind, cond, a, b) in walks},
+    return "\n".join(out), {"parserSites": len(psites), "symcache": sf, "ringWalks": {f: [kind, list(cond) if cond else None, [list(x) for x in a], [list(x) for x in b]] for f, _, (kind, cond, a, b) in walks},
                             "recursionGuard": info["recursionGuard"], "markSites": len(info["markSites"]), "memoryTypes": len(mem),
                             "unrootallRescans": info["unrootallRescans"], "idequalsAlways": info["idequalsAlways"],
                             "rootGrowMul": info["rootGrowMul"], "intervalMul": info["intervalMul"], "suspendSites": info["suspendSites"],
